@@ -13,7 +13,9 @@ FPU_small == {
   [M1("a", <<Hk(1,0,1)>>) EXCEPT !.new = "b"],
   [kind |-> "C", old |-> NULL, new |-> "d/e", ren |-> FALSE, hunks |-> <<>>, to |-> <<0>>, from |-> <<>>, nmode |-> "755"],
   [kind |-> "D", old |-> "d/c", new |-> NULL, ren |-> FALSE, hunks |-> <<>>, to |-> <<>>, from |-> <<0>>, nmode |-> NoMode],
-  [kind |-> "E", old |-> "b", new |-> "b", ren |-> FALSE, hunks |-> <<>>, to |-> <<>>, from |-> <<>>, nmode |-> NoMode] }
+  [kind |-> "E", old |-> "b", new |-> "b", ren |-> FALSE, hunks |-> <<>>, to |-> <<>>, from |-> <<>>, nmode |-> NoMode],
+  \* ... and one whose error comes in the middle of the step (a rename whose new name cannot be loaded)
+  [kind |-> "E", old |-> "a", new |-> "a", ren |-> TRUE, hunks |-> <<>>, to |-> <<>>, from |-> <<>>, nmode |-> NoMode] }
 FS(cells, mode) == [ex |-> TRUE, cells |-> cells, mode |-> mode]
 Tr(a, b, c, e) == [p \in Paths |-> CASE p = "a" -> a [] p = "b" -> b [] p = "d/c" -> c [] p = "d/e" -> e]
 Trees_small == { Tr(FS(<<0>>, "644"), Absent, FS(<<0>>, "644"), Absent),
